@@ -165,38 +165,46 @@ def main():
     n2 = canonical(c, binary, "be_canon", schemas["be_canon"], vectors("be"), report["unsupported_types"].get("be_canon", {}))
     c.note("canonical vectors checked: le %d, be %d (decode_full+encode+recode) in %.1fs" % (n1, n2, timer.lap()))
 
-    # abort / restart: reading a getter of an invalid view is impossible through the driver,
-    # so provoke the runtime assert of packet_runtime.h / a sanitizer report with a separate
-    # tiny binary built with an intentionally broken "generated" header.
-    bad_work = CACHE / "cxx-abort"
-    gen = bad_work / "gen"
-    gen.mkdir(parents=True, exist_ok=True)
-    binary3 = cxx_harness.build([{"name": "ab", "pdl": ABORT_PDL, "exclude": []}], bad_work, PDLC, sanitize=True, ndebug=False)
-    hdr = gen / "ab.h"
-    text = hdr.read_text()
-    # sabotage: make the length check of W too permissive so that read_le runs off the slice
-    sabotaged = text.replace("if (span.size() < 3) {", "if (span.size() < 1) {", 1)
-    c.check(sabotaged != text, "sabotage pattern found in generated header")
+    # abort / restart: provoke the runtime assert of packet_runtime.h with a module whose
+    # generated header is sabotaged on the fly (the length check of W is made too permissive so
+    # that read_le runs off the slice).  With -DNDEBUG the assert is gone and std::vector::at
+    # throws instead: the driver must report `panic` and stay alive.
     import py_harness
+    bad_work = CACHE / "cxx-abort"
     orig_run_pdlc = py_harness.run_pdlc
+    hits = []
 
     def fake_pdlc(pdlc, args, timeout=120, cwd=None):
         ok, out, err = orig_run_pdlc(pdlc, args, timeout=timeout, cwd=cwd)
         if ok and "cxx" in [str(a) for a in args]:
-            out = out.replace("if (span.size() < 3) {", "if (span.size() < 1) {", 1)
+            new = out.replace("if (span.size() < 3) {", "if (span.size() < 1) {", 1)
+            hits.append(new != out)
+            out = new
         return ok, out, err
     py_harness.run_pdlc = fake_pdlc
+    timer.lap()
     try:
         binary3 = cxx_harness.build([{"name": "ab", "pdl": ABORT_PDL, "exclude": []}], bad_work, PDLC, sanitize=True, ndebug=False)
+        t_small = timer.lap()
+        binary4 = cxx_harness.build([{"name": "ab", "pdl": ABORT_PDL, "exclude": []}], bad_work, PDLC, sanitize=False, ndebug=True)
+        t_small_plain = timer.lap()
     finally:
         py_harness.run_pdlc = orig_run_pdlc
-    res = cxx_harness.run(binary3, [("a1", "ab", "W", "decode_full", "010203"), ("a2", "ab", "W", "decode_full", "01"),
-                                    ("a3", "ab", "W", "decode_full", "040506")], timeout_s=20)
+    c.check(hits == [True, True], "sabotage pattern found in generated header %r" % (hits,))
+    c.check(binary3 != binary4, "one build directory per flag combination")
+    c.note("one-module build: sanitize %.1fs, plain+NDEBUG %.1fs (cached when unchanged)" % (t_small, t_small_plain))
+    abort_reqs = [("a1", "ab", "W", "decode_full", "010203"), ("a2", "ab", "W", "decode_full", "01"),
+                  ("a3", "ab", "W", "decode_full", "040506")]
+    res = cxx_harness.run(binary3, abort_reqs, timeout_s=20)
     c.check(res["a1"][0] == "ok", "abort a1 %r" % (res["a1"],))
     c.check(res["a2"][0] == "abort" and len(res["a2"][1]["stderr"]) > 0, "abort a2 %r" % (res["a2"],))
     c.check(res["a3"][0] == "ok", "abort a3 %r" % (res["a3"],))
     c.note("abort payload: returncode=%s signal=%s stderr tail: %r" % (
         res["a2"][1].get("returncode"), res["a2"][1].get("signal"), res["a2"][1].get("stderr", "")[-160:]))
+    res = cxx_harness.run(binary4, abort_reqs, timeout_s=20)
+    c.check(res["a1"][0] == "ok" and res["a3"][0] == "ok", "ndebug a1/a3 %r %r" % (res["a1"], res["a3"]))
+    c.check(res["a2"][0] == "panic" and "out_of_range" in res["a2"][1], "ndebug a2 %r" % (res["a2"],))
+    c.note("NDEBUG build, same input: %r" % (res["a2"],))
     ok = c.report()
     sys.exit(0 if ok else 1)
 
